@@ -115,6 +115,8 @@ def run_shard(rec, tier, seed, shard, nshards):
             nS, nT = sp.n_unique_samples, max(1, sp.n_unique_treatments)
             kind = "sparse" if arity == 1 or rng.random() < 0.6 else "interaction"
             th = gen.random_sparse_combo_theta(rng, nS, nT) if kind == "sparse" else gen.random_interaction_theta(rng, nS, nT)
+            if rng.random() < 0.2:
+                th.precision = float(rng.choice([1e-12, 1e-6, 0.999, 1e6, 1000001.0, 3e7, 1e9, 1e15]))
             tids = np.asarray(screen.treatment_ids)
             sids = np.asarray(screen.sample_ids)
             has_control = bool((tids == -1).any())
